@@ -1,4 +1,382 @@
 import Tfv.Model
+import Tfv.Spec.Flow
+import Tfv.Proofs.FlowGen
+import Tfv.Proofs.FlowExamples
+/-!
+# C08 — the `from` edges of a transformation graph are the data flow of the expression
+
+"For an expression whose arguments are all data, the graph restricted to `from` edges is
+isomorphic to the application tree: one node per operator application with an edge to the node
+of each argument, one shared node per source object however often it is used, and nothing else.
+When an operation (or anonymous function) is passed as an argument, exactly one internal node
+per such argument is attached to the receiving step; it feeds the passed operation, receives
+every other input of the receiving step and the outputs of sibling passed operations, and nested
+internal nodes are fed by the enclosing one."
+
+The theorems are about `addExpr` (Model/Graph.lean) in a configuration with `withTypes = false`
+(every other switch arbitrary): then no type nodes are made, no blank node is spent on a
+non-canonical type, and the only fields of the state that matter are `nextB`, `srcNodes`,
+`sharedNodes`, `internals` and `fd.frm`. Expressions are read in the *spine view*
+(Spec/Flow.lean): `h a₁ … aₙ` is a head with `n` arguments, not `n` binary applications.
+`.shared` nodes (workflow resources) are opaque leaves; an expression containing one is not
+first-order, so the first-order and higher-order theorems do not speak about them.
+
+1. `C08_spine_one_node`, `C08_spine_node`: all binary applications of one spine are one graph node.
+2. `C08_first_order`: for a first-order expression the new edges, the source map, the counter and
+   the result node are *literally* those of the layout function `flowFO`, which is written over the
+   spine view without any internal-node logic and hands out node ids in the order the graph code
+   does (so no renaming is needed); `C08_first_order_tree` says the same without `flowFO`:
+   one new node per operator application, one per new source id, all distinct; every new edge
+   goes from an application node to an application or source node; an application node has
+   exactly one outgoing edge per argument; the number of new edges is the number of argument
+   positions; no internal node is made.
+3. `C08_hof_one_level_partial`: a spine whose arguments are first-order, some of them of function
+   type (operators, or operators partially applied to data, passed to the receiving operator).
+   NOT covered by this theorem: nested internal nodes (a passed operation that itself receives an
+   operation); `C08_hof_one_level_fails_nested` shows that its description is false for them.
+   `C08_hof_nested` is the local rule for them (any expression).
+4. `C08_hof_general`: operations passed as arguments at any depth (class `Hof`: every spine has an
+   operator at its head, an argument of function type is not a source, no `.shared` nodes). The
+   internal pairs are literally, and the `from` edges as a set, those of the recursive layout
+   `flowHO`, whose spine case is `spineInts`/`spineEdges`: the edges inside the arguments, the
+   one-level edges `hofEdges` at the receiving step, and the nested rule. This subsumes 2 and 3
+   (`C08_hof_class`) up to the order of the edge list. Expressions outside the class (a source at
+   the head of a spine or passed as an operation, shared expression objects) are left to the
+   differential test against an independent Python construction; `C08_source_head_splits_spine`
+   shows what the model does for a source at the head.
+
+Statements only; proofs in `Tfv/Proofs/Flow*.lean` (namespace `Tfv.C08P`).
+-/
 namespace Tfv.C08
-theorem placeholder : True := trivial
+open Tfv Tfv.C08P
+
+/-! ## 0. edges only -/
+
+/-- `gAddFrom` always puts the pair in front of `frm`, with or without `withDependencies`. -/
+theorem C08_frm_gAddFrom (c : GCfg) (g : GState) (a b : Nat) (r : Bool) :
+    (gAddFrom c g a b r).fd.frm = (a, b) :: g.fd.frm :=
+  frm_gAddFrom c g a b r
+
+/-- Without types the graph construction cannot fail. -/
+theorem C08_total (G : GLang) (c : GCfg) (root : Node) (origin : Option Node) (hc : c.withTypes = false)
+    (g : GState) (e : TExpr) (cur : Option Nat) (im : Bool) :
+    ∃ g' n, addExpr G c root origin g e cur im = .ok (g', n) :=
+  addExpr_total hc g e cur im
+
+/-- The concept nodes, the internal nodes and the `from` edges depend on nothing but the expression
+and the same five fields of the starting state: not on the language, the other switches of the
+configuration (`withDependencies`, `withOperators`, …), the root, the origin or the
+`intermediate` flag. -/
+theorem C08_edges_config_independent (G1 G2 : GLang) (c1 c2 : GCfg) (root1 root2 : Node)
+    (origin1 origin2 : Option Node) (hc1 : c1.withTypes = false) (hc2 : c2.withTypes = false)
+    (g1 g2 g1' g2' : GState) (e : TExpr) (cur : Option Nat) (im1 im2 : Bool) (n1 n2 : Nat)
+    (hcore : g1.nextB = g2.nextB ∧ g1.srcNodes = g2.srcNodes ∧ g1.sharedNodes = g2.sharedNodes ∧
+      g1.internals = g2.internals ∧ g1.fd.frm = g2.fd.frm)
+    (h1 : addExpr G1 c1 root1 origin1 g1 e cur im1 = .ok (g1', n1))
+    (h2 : addExpr G2 c2 root2 origin2 g2 e cur im2 = .ok (g2', n2)) :
+    n1 = n2 ∧ g1'.nextB = g2'.nextB ∧ g1'.srcNodes = g2'.srcNodes ∧ g1'.sharedNodes = g2'.sharedNodes ∧
+      g1'.internals = g2'.internals ∧ g1'.fd.frm = g2'.fd.frm :=
+  addExpr_config_independent hc1 hc2 hcore h1 h2
+
+example : exCfg.withTypes = false ∧ exCfgOps.withTypes = false ∧
+    summary (addExpr exG exCfg (.res "w") none {} exShared none false) =
+    summary (addExpr exG exCfgOps (.res "w") none {} exShared none false) :=
+  ⟨rfl, rfl, by rw [exShared_run, exShared_run_ops]⟩
+
+/-! ## 1. one node per spine (any configuration) -/
+
+/-- Every function part of a spine `h a₁ … aₙ` (that is `h a₁ … aₙ`, `h a₁ … aₙ₋₁`, …, `h`) is added
+to the very same state with the very same reserved node `cur`, and unless it is a source or a
+shared object (which have nodes of their own) it answers with `cur`: the whole spine is one node. -/
+theorem C08_spine_one_node (G : GLang) (c : GCfg) (root : Node) (origin : Option Node) (im : Bool) (cur : Nat)
+    (e : TExpr) (g g' : GState) (n : Nat)
+    (h : addExpr G c root origin g e (some cur) im = .ok (g', n)) :
+    ∀ s ∈ spinePrefixes e, ∃ g1 m, addExpr G c root origin g s (some cur) im = .ok (g1, m) ∧
+      (s.isLeafData = false → m = cur) :=
+  addExpr_spine_prefixes e g g' n h
+
+example : spinePrefixes exShared =
+    [exShared, .app (.op "f" tAAA) (.app (.op "g" tAA) exX tA) tAA, .op "f" tAAA] := rfl
+
+/-- The node of an application or an operator is the reserved one, or the next unused one when
+none was reserved (`allocNode next (some k) = (k, next)`, `allocNode next none = (next, next + 1)`). -/
+theorem C08_spine_node (G : GLang) (c : GCfg) (root : Node) (origin : Option Node) (im : Bool)
+    (e : TExpr) (g g' : GState) (cur : Option Nat) (n : Nat) (he : e.isLeafData = false)
+    (h : addExpr G c root origin g e cur im = .ok (g', n)) :
+    n = (allocNode g.nextB cur).1 :=
+  addExpr_node_cases he h
+
+example : exShared.isLeafData = false ∧
+    summary (addExpr exG exCfg (.res "w") none {} exShared none false) =
+      some ([(0, 2), (0, 1), (1, 2)], [], [(0, 2)], 4, 0) := ⟨rfl, exShared_run⟩
+
+/-! ## 2. first-order expressions -/
+
+/-- `firstOrder` decides `FirstOrder`. -/
+theorem C08_firstOrder_iff (e : TExpr) : firstOrder e = true ↔ FirstOrder e := firstOrder_iff e
+
+/-- For a first-order expression added to a consistent state (`GFresh`; a reserved node, if any,
+is unused: `CurFree`), the result node, the counter, the source map and the new `from` edges are
+exactly those of the application-tree layout `flowFO` started at the state's counter and source
+map; no internal node is made and the shared-object map is untouched. -/
+theorem C08_first_order (G : GLang) (c : GCfg) (root : Node) (origin : Option Node) (hc : c.withTypes = false)
+    (g g' : GState) (e : TExpr) (cur : Option Nat) (im : Bool) (n : Nat) (hfo : FirstOrder e)
+    (hg : GFresh g) (hcur : ∀ m, cur = some m → CurFree g m)
+    (h : addExpr G c root origin g e cur im = .ok (g', n)) :
+    n = (flowFO g.nextB g.srcNodes e cur).node ∧
+    g'.nextB = (flowFO g.nextB g.srcNodes e cur).next ∧
+    g'.srcNodes = (flowFO g.nextB g.srcNodes e cur).memo ∧
+    g'.fd.frm = (flowFO g.nextB g.srcNodes e cur).edges ++ g.fd.frm ∧
+    g'.internals = g.internals ∧ g'.sharedNodes = g.sharedNodes :=
+  addExpr_first_order hc hfo (pre_of_fresh hg hcur).2 h
+
+/-- The spine case of `flowFO`, spelled out: the node is the reserved or next unused one, and the
+arguments are folded in left to right; each step (`flowStep`/`flowArg`) reserves the next id for the
+argument, lays the argument out, and adds the one edge `(spine node, argument node)`. -/
+theorem C08_flowFO_spine (next : Nat) (memo : List (Nat × Nat)) (e : TExpr) (cur : Option Nat) (name : String)
+    (ty : Term) (h : headOf e = .op name ty) :
+    flowFO next memo e cur =
+      (argsOf e).foldl (fun st x => flowArg (allocNode next cur).1 st (flowFO (st.next + 1) st.memo x (some st.next)))
+        { node := (allocNode next cur).1, next := (allocNode next cur).2, memo := memo, edges := [],
+          ops := [((allocNode next cur).1, e)] } :=
+  flowFO_spine next memo e cur name ty h
+
+/-- `f (g x) x`: first-order, the layout has the two application nodes 0 and 1, the one source
+node 2 used twice, and three edges; the graph code produces exactly that. -/
+example : FirstOrder exShared ∧ GFresh {} ∧
+    flowFO 0 [] exShared none =
+      { node := 0, next := 4, memo := [(0, 2)], edges := [(0, 2), (0, 1), (1, 2)],
+        ops := [(0, exShared), (1, .app (.op "g" tAA) exX tA)] } ∧
+    summary (addExpr exG exCfg (.res "w") none {} exShared none false) =
+      some ([(0, 2), (0, 1), (1, 2)], [], [(0, 2)], 4, 0) :=
+  ⟨exShared_fo, gfresh_empty, exShared_flow, exShared_run⟩
+
+/-- The same without the layout function: there are a list `ops` of (node, operator application)
+pairs and a list `newSrc` of (source id, node) pairs such that
+* the graph has the old edges plus `newEdges`, the old sources plus `newSrc`, and the old internal nodes;
+* `ops` lists exactly the operator applications (spines) of the expression: one node each;
+* the nodes of `ops` and of `newSrc` are pairwise distinct and new (the reserved node, or handed
+  out by the counter during this call);
+* the ids in `newSrc` are distinct and had no node before: a source id has one node, once and for all;
+* every new edge goes from an application node to an application node or a source node;
+* an application node has exactly as many outgoing new edges as the application has arguments,
+  and there are as many new edges as argument positions in the expression;
+* the result node is an application node or a source node. -/
+theorem C08_first_order_tree (G : GLang) (c : GCfg) (root : Node) (origin : Option Node) (hc : c.withTypes = false)
+    (g g' : GState) (e : TExpr) (cur : Option Nat) (im : Bool) (n : Nat) (hfo : FirstOrder e)
+    (hg : GFresh g) (hcur : ∀ m, cur = some m → CurFree g m)
+    (h : addExpr G c root origin g e cur im = .ok (g', n)) :
+    ∃ (newEdges : List (Nat × Nat)) (ops : List (Nat × TExpr)) (newSrc : List (Nat × Nat)),
+      g'.fd.frm = newEdges ++ g.fd.frm ∧ g'.srcNodes = g.srcNodes ++ newSrc ∧ g'.internals = g.internals ∧
+      g'.sharedNodes = g.sharedNodes ∧ g.nextB ≤ g'.nextB ∧
+      ops.map Prod.snd = subSpines e ∧
+      (ops.map Prod.fst ++ newSrc.map Prod.snd).Nodup ∧
+      (∀ m ∈ ops.map Prod.fst ++ newSrc.map Prod.snd, (cur = some m ∨ g.nextB ≤ m) ∧ m < g'.nextB) ∧
+      (newSrc.map Prod.fst).Nodup ∧ (∀ p ∈ newSrc, p.1 ∉ g.srcNodes.map Prod.fst) ∧
+      (∀ p ∈ newEdges, p.1 ∈ ops.map Prod.fst ∧ (p.2 ∈ ops.map Prod.fst ∨ p.2 ∈ g'.srcNodes.map Prod.snd)) ∧
+      (∀ q ∈ ops, (objectsOf newEdges q.1).length = (argsOf q.2).length) ∧
+      newEdges.length = numArgs e ∧
+      (n ∈ ops.map Prod.fst ∨ n ∈ g'.srcNodes.map Prod.snd) :=
+  addExpr_first_order_tree hc hfo hg hcur h
+
+/-- The number of new non-source nodes is the number of operator applications. -/
+theorem C08_first_order_node_count (next : Nat) (memo : List (Nat × Nat)) (e : TExpr) (cur : Option Nat)
+    (hfo : FirstOrder e) (hm : ∀ p ∈ memo, p.2 < next)
+    (hc : ∀ m, cur = some m → m < next ∧ ∀ p ∈ memo, p.2 ≠ m) :
+    (flowFO next memo e cur).ops.length = numSpines e ∧
+    (flowFO next memo e cur).edges.length = numArgs e :=
+  flowFO_counts hfo hm hc
+
+/-- Adding a first-order expression keeps the state consistent, so the theorems can be applied to
+the next expression. -/
+theorem C08_first_order_fresh (G : GLang) (c : GCfg) (root : Node) (origin : Option Node) (hc : c.withTypes = false)
+    (g g' : GState) (e : TExpr) (cur : Option Nat) (im : Bool) (n : Nat) (hfo : FirstOrder e)
+    (hg : GFresh g) (hcur : ∀ m, cur = some m → CurFree g m)
+    (h : addExpr G c root origin g e cur im = .ok (g', n)) : GFresh g' :=
+  addExpr_first_order_fresh hc hfo hg hcur h
+
+/-! ## 3. operations passed as arguments -/
+
+/-- One level of passed operations. The spine `e = h a₁ … aₙ` has an operator at its head and
+first-order arguments; an argument of function type (an operator, possibly applied to some data)
+has an operator at its head. `flowHO1` lays out the arguments one after the other (`args`: the
+node of each argument and, for the function-typed ones, a fresh internal node; `inner`: the
+application-tree edges inside the arguments). Then
+* the result node `n` is the reserved node, or the next unused one;
+* exactly one internal node is attached to `n` per function-typed argument, in order, all
+  distinct and new (`lamsOf`, and the last three conjuncts);
+* the `from` edges are, as a set, the old ones, those inside the arguments, and `hofEdges`:
+  `n → node(aᵢ)` for every argument; `node(aᵢ) → λᵢ` for every passed operation; and
+  `λᵢ → node(aⱼ)` for every passed operation `aᵢ` and every other argument `aⱼ` (`j ≠ i`, data and
+  sibling passed operations alike).
+
+`_partial`: nested internal nodes — a passed operation that itself receives an operation
+("nested internal nodes are fed by the enclosing one") — are excluded by `HofArg` (the arguments
+are first-order), and for them this description is false (`C08_hof_one_level_fails_nested`).
+They are covered by `C08_hof_general` (edges as a set over the recursive layout `flowHO`) and by
+the local rule `C08_hof_nested`; and, independently of these proofs, by the differential test
+against an independent Python construction. What this theorem has over the general one: the
+edges inside the arguments are given as the literal `flowFO` edge lists. -/
+theorem C08_hof_one_level_partial (G : GLang) (c : GCfg) (root : Node) (origin : Option Node)
+    (hc : c.withTypes = false) (g g' : GState) (e : TExpr) (cur : Option Nat) (im : Bool) (n : Nat)
+    (name : String) (ty : Term) (hh : headOf e = .op name ty) (hargs : ∀ a ∈ argsOf e, HofArg a)
+    (hg : GFresh g) (hcur : ∀ m, cur = some m → CurFree g m)
+    (h : addExpr G c root origin g e cur im = .ok (g', n)) :
+    n = (allocNode g.nextB cur).1 ∧
+    g'.nextB = (flowHO1 g.nextB g.srcNodes e cur).next ∧
+    g'.srcNodes = (flowHO1 g.nextB g.srcNodes e cur).memo ∧
+    g'.sharedNodes = g.sharedNodes ∧
+    g'.internals = g.internals ++ lamsOf n (flowHO1 g.nextB g.srcNodes e cur).args ∧
+    (∀ p, p ∈ g'.fd.frm ↔ p ∈ g.fd.frm ∨ p ∈ (flowHO1 g.nextB g.srcNodes e cur).inner ∨
+      hofEdges n (flowHO1 g.nextB g.srcNodes e cur).args p) ∧
+    (flowHO1 g.nextB g.srcNodes e cur).args.map (fun info => info.lam.isSome) =
+      (argsOf e).map (fun a => a.ty.isFunction) ∧
+    ((flowHO1 g.nextB g.srcNodes e cur).args.filterMap (fun a => a.lam)).Nodup ∧
+    (∀ a ∈ (flowHO1 g.nextB g.srcNodes e cur).args, ∀ i, a.lam = some i → g.nextB ≤ i ∧ i < g'.nextB) :=
+  addExpr_hof_one_level hc hh hargs hg hcur h
+
+/-- `h u x` with `u : A ** A`: node 0 for `h u x`, node 1 for `u`, its internal node 2, source node 3.
+Edges `0 → 1`, `0 → 3` (inputs of `h`), `1 → 2` (`u` is fed by its internal node), `2 → 3` (the
+internal node receives the other input). -/
+example : headOf exHof = .op "h" tFAA ∧ (∀ a ∈ argsOf exHof, HofArg a) ∧ GFresh {} ∧
+    flowHO1 0 [] exHof none =
+      { node := 0, next := 4, memo := [(0, 3)], args := [⟨1, some 2⟩, ⟨3, none⟩], inner := [] } ∧
+    summary (addExpr exG exCfg (.res "w") none {} exHof none false) =
+      some ([(2, 3), (0, 3), (0, 1), (1, 2)], [(0, 2)], [(0, 3)], 4, 0) :=
+  ⟨rfl, exHof_args, gfresh_empty, exHof_flow, exHof_run⟩
+
+/-- A one-level higher-order spine keeps the state consistent, so the theorems can be applied to
+the next expression. -/
+theorem C08_hof_one_level_fresh (G : GLang) (c : GCfg) (root : Node) (origin : Option Node)
+    (hc : c.withTypes = false) (g g' : GState) (e : TExpr) (cur : Option Nat) (im : Bool) (n : Nat)
+    (name : String) (ty : Term) (hh : headOf e = .op name ty) (hargs : ∀ a ∈ argsOf e, HofArg a)
+    (hg : GFresh g) (hcur : ∀ m, cur = some m → CurFree g m)
+    (h : addExpr G c root origin g e cur im = .ok (g', n)) : GFresh g' :=
+  addExpr_hof_one_level_fresh hc hh hargs hg hcur h
+
+/-- Why `_partial`: without the restriction to first-order arguments the one-level description is
+false. For `h (u v) x` (`u v` passed to `h`, `v` passed to `u`) the graph has a second internal
+pair, one more blank node, and the edge `(4, 2)` from the internal node of `u` to the internal
+node of `h`, which is neither inside an argument nor an edge of `hofEdges`. -/
+theorem C08_hof_one_level_fails_nested (g' : GState) (n : Nat)
+    (h : addExpr exG exCfg (.res "w") none {} exNested none false = .ok (g', n)) :
+    headOf exNested = .op "h" tFAA ∧
+    g'.internals ≠ ({} : GState).internals ++ lamsOf n (flowHO1 0 [] exNested none).args ∧
+    g'.nextB ≠ (flowHO1 0 [] exNested none).next ∧
+    (4, 2) ∈ g'.fd.frm ∧ (4, 2) ∉ (flowHO1 0 [] exNested none).inner ∧
+    ¬ hofEdges n (flowHO1 0 [] exNested none).args (4, 2) :=
+  ⟨rfl, exNested_not_one_level g' n h⟩
+
+/-- The local rule for nested internal nodes (any expression, also higher levels): when the
+argument `x` of an application `f x` has a function type, a new internal node
+`lam = g1.nextB + 1` is attached to the node `fnode` of `f` before `x` is added (with the reserved
+node `g1.nextB`); afterwards `x`'s node is fed by `lam`, `fnode` by `x`'s node, nothing is removed,
+and every internal node `μ` attached to `x`'s node is fed by `lam`. -/
+theorem C08_hof_nested (G : GLang) (c : GCfg) (root : Node) (origin : Option Node) (g g' : GState)
+    (f x : TExpr) (ty : Term) (m : Nat) (im : Bool) (n : Nat) (hc : c.withTypes = false)
+    (hfun : x.ty.isFunction = true)
+    (h : addExpr G c root origin g (.app f x ty) (some m) im = .ok (g', n)) :
+    ∃ (g1 : GState) (fnode : Nat) (gi g2 : GState) (xnode : Nat),
+      addExpr G c root origin g f (some m) im = .ok (g1, fnode) ∧
+      gi.nextB = g1.nextB + 2 ∧ gi.internals = g1.internals ++ [(fnode, g1.nextB + 1)] ∧
+      gi.srcNodes = g1.srcNodes ∧ gi.sharedNodes = g1.sharedNodes ∧ gi.fd = g1.fd ∧
+      addExpr G c root origin gi x (some g1.nextB) true = .ok (g2, xnode) ∧
+      g'.internals = g2.internals ∧ (fnode, g1.nextB + 1) ∈ g'.internals ∧
+      (xnode, g1.nextB + 1) ∈ g'.fd.frm ∧ (fnode, xnode) ∈ g'.fd.frm ∧
+      (∀ p ∈ g2.fd.frm, p ∈ g'.fd.frm) ∧
+      ∀ μ, (xnode, μ) ∈ g2.internals → (μ, g1.nextB + 1) ∈ g'.fd.frm :=
+  addExpr_nested hc hfun h
+
+/-- `h (u v) x`, where `u v : A ** A` is passed to `h` and `v : A ** A` is passed to `u`.
+Nodes: 0 = `h …`, 1 = `u v` with internal node 2 (of `h`), 3 = `v` with internal node 4 (of `u`), 5 = `x`.
+The edge `(4, 2)` is the nested rule; it is not an edge of the one-level description. -/
+example : (match exNested with | .app _ x _ => x.ty.isFunction | _ => false) = false ∧
+    (match exNested with | .app (.app _ x _) _ _ => x.ty.isFunction | _ => false) = true ∧
+    summary (addExpr exG exCfg (.res "w") none {} exNested none false) =
+      some ([(2, 5), (0, 5), (4, 2), (0, 1), (1, 2), (1, 3), (3, 4)], [(0, 2), (1, 4)], [(0, 5)], 6, 0) :=
+  ⟨rfl, rfl, exNested_run⟩
+
+/-! ## 4. operations passed as arguments at any depth -/
+
+/-- `hof` is a sound check of the class `Hof`; first-order expressions and the one-level
+higher-order spines of `C08_hof_one_level_partial` are in the class. -/
+theorem C08_hof_class :
+    (∀ e, hof e = true → Hof e) ∧ (∀ e, FirstOrder e → Hof e) ∧
+    (∀ e name ty, headOf e = .op name ty → (∀ a ∈ argsOf e, HofArg a) → Hof e) :=
+  ⟨hof_sound, fun _ h => hof_of_firstOrder h, fun _ _ _ hh hargs => hof_of_hofArgs hh hargs⟩
+
+/-- Operations passed as arguments at any depth. For an expression `e` of the class `Hof` with an
+operator at its head, added to a consistent state, `flowHOTop` (= `flowHO` started with the reserved
+node, or with the next unused one) describes the result exactly:
+* the result node, the counter, the source map;
+* the internal pairs: the old ones followed by `ints`, which for a spine with node `n` is, per
+  argument in order, the pair `(n, λ)` if the argument has a function type (exactly one internal
+  node per passed operation, attached to the receiving step) followed by the pairs made inside
+  the argument (`spineInts`); all internal nodes are distinct and new;
+* the `from` edges, as a set: the old ones and `edges`, which for a spine with node `n` is
+  `spineEdges`: the edges inside the arguments; `n → node(aᵢ)` for every argument; `node(aᵢ) → λᵢ`
+  for every passed operation (the internal node feeds the passed operation); `λᵢ → node(aⱼ)` for
+  every passed operation `aᵢ` and every other argument `aⱼ`, data or sibling passed operation
+  (`hofEdges`); and `μ → λᵢ` for every internal node `μ` attached to the node of the passed
+  operation `aᵢ` (nested internal nodes are fed by the enclosing one). -/
+theorem C08_hof_general (G : GLang) (c : GCfg) (root : Node) (origin : Option Node)
+    (hc : c.withTypes = false) (g g' : GState) (e : TExpr) (cur : Option Nat) (im : Bool) (n : Nat)
+    (name : String) (ty : Term) (hof : Hof e) (hh : headOf e = .op name ty)
+    (hg : GFresh g) (hcur : ∀ m, cur = some m → CurFree g m)
+    (h : addExpr G c root origin g e cur im = .ok (g', n)) :
+    n = (allocNode g.nextB cur).1 ∧
+    n = (flowHOTop g.nextB g.srcNodes e cur).node ∧
+    g'.nextB = (flowHOTop g.nextB g.srcNodes e cur).next ∧
+    g'.srcNodes = (flowHOTop g.nextB g.srcNodes e cur).memo ∧
+    g'.sharedNodes = g.sharedNodes ∧
+    g'.internals = g.internals ++ (flowHOTop g.nextB g.srcNodes e cur).ints ∧
+    (∀ p, p ∈ g'.fd.frm ↔ p ∈ g.fd.frm ∨ (flowHOTop g.nextB g.srcNodes e cur).edges p) ∧
+    ((flowHOTop g.nextB g.srcNodes e cur).ints.map Prod.snd).Nodup ∧
+    (∀ q ∈ (flowHOTop g.nextB g.srcNodes e cur).ints, g.nextB ≤ q.2 ∧ q.2 < g'.nextB) :=
+  addExpr_hof_general hc hof hh hg hcur h
+
+/-- The spine case of the layout, spelled out: the node is the reserved one, the arguments are laid
+out left to right by `hoArgStep` (reserve the argument's node, reserve its internal node if it has a
+function type, lay the argument out), and the internal pairs and edges are `spineInts` and
+`spineEdges` of the argument layouts. -/
+theorem C08_flowHO_spine (next : Nat) (memo : List (Nat × Nat)) (e : TExpr) (cur : Nat) (name : String) (ty : Term)
+    (h : headOf e = .op name ty) :
+    flowHO next memo e cur =
+      { node := cur, next := ((argsOf e).foldl hoArgStep { next := next, memo := memo, rs := [] }).next,
+        memo := ((argsOf e).foldl hoArgStep { next := next, memo := memo, rs := [] }).memo,
+        ints := spineInts cur ((argsOf e).foldl hoArgStep { next := next, memo := memo, rs := [] }).rs,
+        edges := spineEdges cur ((argsOf e).foldl hoArgStep { next := next, memo := memo, rs := [] }).rs } :=
+  flowHO_spine next memo e cur name ty h
+
+/-- `h (u v) x`: in the class; the layout evaluated from its definition has the internal pairs
+`(0, 2)` and `(1, 4)`; its edge set is the one-level edges plus the nested edge `(4, 2)`; and that is
+what the graph code produces. -/
+example : Hof exNested ∧ headOf exNested = .op "h" tFAA ∧ GFresh {} ∧
+    ((flowHOTop 0 [] exNested none).node = 0 ∧ (flowHOTop 0 [] exNested none).next = 6 ∧
+      (flowHOTop 0 [] exNested none).memo = [(0, 5)] ∧ (flowHOTop 0 [] exNested none).ints = [(0, 2), (1, 4)]) ∧
+    (∀ p, (flowHOTop 0 [] exNested none).edges p ↔
+      p ∈ [(2, 5), (0, 5), (4, 2), (0, 1), (1, 2), (1, 3), (3, 4)]) ∧
+    summary (addExpr exG exCfg (.res "w") none {} exNested none false) =
+      some ([(2, 5), (0, 5), (4, 2), (0, 1), (1, 2), (1, 3), (3, 4)], [(0, 2), (1, 4)], [(0, 5)], 6, 0) :=
+  ⟨exNested_hof, rfl, gfresh_empty, exNested_layout, exNested_edges, exNested_run⟩
+
+/-- An expression of the class keeps the state consistent. -/
+theorem C08_hof_general_fresh (G : GLang) (c : GCfg) (root : Node) (origin : Option Node)
+    (hc : c.withTypes = false) (g g' : GState) (e : TExpr) (cur : Option Nat) (im : Bool) (n : Nat)
+    (name : String) (ty : Term) (hof : Hof e) (hh : headOf e = .op name ty)
+    (hg : GFresh g) (hcur : ∀ m, cur = some m → CurFree g m)
+    (h : addExpr G c root origin g e cur im = .ok (g', n)) : GFresh g' :=
+  addExpr_hof_general_fresh hc hof hh hg hcur h
+
+/-! ## a model oddity -/
+
+/-- When the head of a spine is a *source* that already has a node, the spine is not one node: the
+first argument is attached to the source's node (7), the later ones to the node reserved for the
+spine (8), which is also the node returned. (The theorems above require an operator at the head.) -/
+theorem C08_source_head_splits_spine :
+    headOf exOdd = .src 1 none tAAA ∧
+    summary (addExpr exG exCfg (.res "w") none exOddG exOdd none false) =
+      some ([(8, 10), (7, 9)], [], [(1, 7), (0, 9), (2, 10)], 11, 8) :=
+  ⟨rfl, exOdd_run⟩
+
 end Tfv.C08
